@@ -7,12 +7,18 @@ SPEC = {
     "required_theorems": ["schema_roundtrip", "C06_roundtrip_partial", "C06_roundtrip_exact_partial", "translator_complete",
                           "table_ok", "env_valid", "keepraw_reencodes", "keepraw_iso_bytes"],
     "translators": [translate_derive.translate],
-    "streams": [{"name": "schema", "quick": 1224, "thorough": 61200}],
-    "rule": "stream schema: one case per (type, seed), types taken round-robin from the translated table (all 102 on every run): "
+    "streams": [{"name": "schema", "quick": 1120, "thorough": 56000},
+                {"name": "chain", "quick": 20, "thorough": 2000, "timeout": 7200}],
+    "rule": "stream schema: one case per (type, seed), types taken round-robin from the translated table (all 112 on every run): "
             "a generated value of the Rust type (boundary-weighted ints over the full CBOR range, byte/text lengths 0,23,24,255,256, "
             "containers 0..3 and 23..25 elements, every enum variant, Def/Indef wrappers, null/undefined) is encoded by pallas and by the "
             "Lean schema interpreter (bytes compared), then the bytes are decoded by both (value text compared); distinct = sha1 of the op "
-            "text; non-trivial = the value text has at least 5 tokens (a container or a non-trivial sum)",
+            "text; non-trivial = the value text has at least 5 tokens (a container or a non-trivial sum). "
+            "stream chain: one case per on-chain artefact: every *.block / *.tx / *.header of test_data plus blocks of the three immutable-DB "
+            "chunks in test_data (split with an independent strict CBOR walker; quick: 20 of them and no artefact above 60 kB, thorough: all 1783 "
+            "and genesis.block); pallas decodes (MultiEraBlock::decode / typed Tx and header decode) and re-encodes, the Lean interpreter does the "
+            "same with the translated schema; compared: type, re-encoding == input, token count and FNV-64 digest of the decoded value text "
+            "(raws included); non-trivial = decoded by both",
     "trusted_base": [
         "lib/translate_derive.py (tie A): bracket-matching reader of the five anchored files; fails closed through `unknowns = []`; "
         "a translation error shows as a byte difference in stream `schema`, whose value text is produced by Show impls generated from the same parse",
